@@ -318,18 +318,19 @@ Qed.
 (* ================================================================ the shape of one write step *)
 (* every row-level step either leaves the table alone or replaces the binding
    of one key by a binding under a key that is free after the removal *)
-Definition step_shape (t t' : tbl) : Prop :=
-  t' = t \/ exists k k' v, t' = put k' v (remove k t) /\ lookup k' (remove k t) = None.
+Definition step_shape (sch : schema) (t t' : tbl) : Prop :=
+  t' = t \/ exists k k' v, t' = put k' v (remove k t) /\ lookup k' (remove k t) = None /\
+                          k' = key_of sch v.
 
-Lemma step_shape_wf t t' : step_shape t t' -> tbl_wf t -> tbl_wf t'.
+Lemma step_shape_wf sch t t' : step_shape sch t t' -> tbl_wf t -> tbl_wf t'.
 Proof.
-  intros [->|[k [k' [v [-> L]]]]] W; auto.
+  intros [->|[k [k' [v [-> [L _]]]]]] W; auto.
   apply put_wf; auto. now apply remove_wf.
 Qed.
 
-Lemma step_shape_sorted t t' : step_shape t t' -> sorted t -> sorted t'.
+Lemma step_shape_sorted sch t t' : step_shape sch t t' -> sorted t -> sorted t'.
 Proof.
-  intros [->|[k [k' [v [-> L]]]]] S; auto.
+  intros [->|[k [k' [v [-> [L _]]]]]] S; auto.
   apply sorted_put; auto. now apply sorted_remove.
 Qed.
 
@@ -341,18 +342,18 @@ Proof.
 Qed.
 
 Lemma update_row_shape sch en sets inc s kr s' :
-  update_row sch en sets inc s kr = WOk s' -> step_shape (w_t s) (w_t s').
+  update_row sch en sets inc s kr = WOk s' -> step_shape sch (w_t s) (w_t s').
 Proof.
   unfold update_row. destruct kr as [k old].
   destruct (apply_sets en sets old) as [vals|]; [|discriminate].
   destruct (row_eqb vals old); [intro H; inversion H; now left|].
   destruct (negb (key_eqb (key_of sch vals) k) && mem (key_of sch vals) (w_t s)) eqn:C; [discriminate|].
   intro H; inversion H; cbn. right. do 3 eexists. split; [reflexivity|].
-  now apply free_after_remove.
+  split; [now apply free_after_remove|reflexivity].
 Qed.
 
 Lemma insert_row_shape sch en mode idx ondup s es s' :
-  insert_row sch en mode idx ondup s es = WOk s' -> step_shape (w_t s) (w_t s').
+  insert_row sch en mode idx ondup s es = WOk s' -> step_shape sch (w_t s) (w_t s').
 Proof.
   unfold insert_row.
   destruct (do g <- given_values en (s_cols sch) idx es (map (fun _ => None) (s_cols sch));
@@ -363,10 +364,10 @@ Proof.
   - destruct ondup as [|x ondup].
     + destruct mode; intro H; inversion H; cbn.
       * now left.
-      * right. do 3 eexists. split; [reflexivity|]. apply lookup_remove_eq.
+      * right. do 3 eexists. split; [reflexivity|]. split; [apply lookup_remove_eq|reflexivity].
     + intro H. apply update_row_shape in H. exact H.
   - intro H; inversion H; cbn. right. exists (key_of sch vals), (key_of sch vals), vals.
-    rewrite (remove_absent _ _ L). auto.
+    rewrite (remove_absent _ _ L). repeat split; auto.
 Qed.
 
 Lemma wfold_inv {A} (P : wstate -> Prop) (f : wstate -> A -> wres) l :
@@ -387,7 +388,7 @@ Lemma exec_rows_cases sch st s args :
   ts_rows (r_state r) = ts_rows st
   \/ (exists ks, ts_rows (r_state r) = remove_keys ks (ts_rows st))
   \/ (exists A (f : wstate -> A -> wres) l s0 s1,
-        (forall s x s', f s x = WOk s' -> step_shape (w_t s) (w_t s')) /\
+        (forall s x s', f s x = WOk s' -> step_shape sch (w_t s) (w_t s')) /\
         w_t s0 = ts_rows st /\ wfold f l s0 = WOk s1 /\ ts_rows (r_state r) = w_t s1).
 Proof.
   destruct s as [f w o lim fu|mode names rows ondup|sets w o lim|w o lim]; cbn.
@@ -999,4 +1000,26 @@ Proof.
     unfold key_of. apply map_ext_in. intros j Ij.
     apply nth_set_nth_neq. intro; subst j.
     exact (H c e i col (or_introl eq_refl) F Ij).
+Qed.
+
+(* ================================================================ rows stay filed under their own key *)
+Lemma step_shape_keyed sch t t' : step_shape sch t t' -> keyed sch t -> keyed sch t'.
+Proof.
+  intros [->|[k [k' [v [-> [L ->]]]]]] K; auto.
+  intros k1 r1 I. unfold put in I. apply (Permutation_in _ (ins_sorted_perm _ _)) in I.
+  destruct I as [E|I]; [inversion E; auto|].
+  rewrite remove_as_filter in I. apply filter_In in I. apply K, I.
+Qed.
+
+(* exec keeps every row under the key computed from its own columns *)
+Theorem exec_preserves_keyed sch st s args :
+  keyed sch (ts_rows st) -> keyed sch (ts_rows (r_state (exec sch st s args))).
+Proof.
+  intro W. destruct (exec_rows_cases sch st s args) as [E|[[ks E]|[A [f [l [s0 [s1 [Hf [E0 [Wf E]]]]]]]]]];
+    rewrite E.
+  - exact W.
+  - intros k r I. apply filter_In in I. apply W, I.
+  - apply (wfold_inv (fun s => keyed sch (w_t s)) f l) with (s := s0); auto.
+    + intros. eapply step_shape_keyed; eauto.
+    + now rewrite E0.
 Qed.
